@@ -182,6 +182,18 @@ func (g *c04gen) goTypedInt(hs HSpec, v *big.Int) {
 		}
 	}
 	emit(v.String(), J{"k": "str", "v": v.String()}, "string")
+	if !v.IsInt64() {
+		// a float64 outside int64 that is exactly this integer: the standalone API (like the RDF conversion) goes through the
+		// 16-digit canonical double, which denotes another integer when v needs more digits (known finding F7)
+		if f, acc := new(big.Float).SetInt(v).Float64(); acc == big.Exact && !math.IsInf(f, 0) {
+			impl := implHash(hs.H, full, f)
+			tg := []string{"dt:" + dt, "h:" + hs.Name, "go:float64", "float64-beyond-int64"}
+			if !canonDenotes(ld.GetCanonicalDouble(f), v) {
+				tg = append(tg, "shape:float64-beyond-int64-needs-more-than-16-digits")
+			}
+			g.out.Emit(Case{Op: "xsd.hash", In: J{"h": hs.JSON, "dt": full, "val": f64J(f)}, Impl: impl, Prop: judge(impl, want), Tags: tg, NT: true})
+		}
+	}
 	if v.IsUint64() {
 		// unsigned Go types are unsupported outside xsd:double
 		impl := implHash(hs.H, full, v.Uint64())
@@ -207,7 +219,8 @@ func boundaryInts(p *big.Int, r *Rng) []*big.Int {
 	return out
 }
 
-var malformedInts = []string{"", " ", "abc", "1.5", "-0.5", "1e-1", "15e-1", ".", "-", "+", "1e", "1e+", "e5", "--1", "1 ", " 1",
+var malformedInts = []string{"0x10", "0X1F", "+0x10", "-0x1", "0b11", "0B1", "0o17", "0O7", "0x1p4", "0x.8p1", "1p4", "4/2", "1/1", "0/5", "1_000", "0_1", "1_0e1", "1e1_0",
+	"", " ", "abc", "1.5", "-0.5", "1e-1", "15e-1", ".", "-", "+", "1e", "1e+", "e5", "--1", "1 ", " 1",
 	"1,0", "١", "1.0.0", "1e1.0", "NaN", "Inf", "-.5", "3.0000001", "12e-3", "100e-3"}
 var oddButIntegral = []string{".0", "-.0", "5.", "+5.", "0e99", "-0", "+0", "0.000", "1000e-3", "25e-1e0"}
 
@@ -247,7 +260,9 @@ func (g *c04gen) run(tier string, n int) {
 	// int64/float64 magnitudes where the float path matters
 	for _, hs := range []HSpec{hPoseidon(), hSmall(2305843009213693951)} {
 		for _, s := range []string{"9007199254740991", "9007199254740992", "9007199254740993", "-9007199254740993", "9223372036854775807",
-			"-9223372036854775808", "18446744073709551615", "1000000000000000000000", "123456789012345678", "999999999999999", "1e21", "1.5e3"} {
+			"-9223372036854775808", "18446744073709551615", "1000000000000000000000", "123456789012345678", "999999999999999", "1e21", "1.5e3",
+			"18446744073709551616", "9223372036854775808", "-18446744073709551616", "10000000000000000000", "1180591620717411303424", "-9223372036854777856",
+			"1152921504606846976", "12345678901234568", "-1152921504606846976", "4611686018427387904"} {
 			v, ok := new(big.Int).SetString(s, 10)
 			if ok {
 				g.goTypedInt(hs, v)
@@ -275,9 +290,9 @@ func (g *c04gen) run(tier string, n int) {
 			j    J
 			want any
 		}{{true, J{"k": "bool", "v": true}, h1}, {false, J{"k": "bool", "v": false}, h0},
-			{float64(1), J{"k": "f64", "canon": "1.0E0"}, h1}, {float64(0), J{"k": "f64", "canon": "0.0E0"}, h0},
+			{float64(1), f64J(1), h1}, {float64(0), f64J(0), h0},
 			{int64(1), J{"k": "int", "v": "1"}, h1}, {int(0), J{"k": "int", "v": "0"}, h0}, {int64(2), J{"k": "int", "v": "2"}, "err"},
-			{"true", J{"k": "str", "v": "true"}, h1}, {float64(2), J{"k": "f64", "canon": "2.0E0"}, "err"}} {
+			{"true", J{"k": "str", "v": "true"}, h1}, {float64(2), f64J(2), "err"}, {float64(0.5), f64J(0.5), "err"}, {math.Copysign(0, -1), f64J(math.Copysign(0, -1)), h0}} {
 			impl := implHash(hs.H, full, tc.v)
 			g.out.Emit(Case{Op: "xsd.hash", In: J{"h": hs.JSON, "dt": full, "val": tc.j}, Impl: impl, Prop: judge(impl, tc.want),
 				Tags: []string{"dt:boolean", "h:" + hs.Name, "go-typed"}, NT: true})
@@ -396,7 +411,7 @@ func (g *c04gen) times(tier string, n int) {
 	}
 	// Go-typed: strings only are natural; a float64 for dateTime is ill-formed
 	impl := implHash(hPoseidon().H, xsdNS+"dateTime", 5.0)
-	g.out.Emit(Case{Op: "xsd.hash", In: J{"h": "poseidon", "dt": xsdNS + "dateTime", "val": J{"k": "f64", "canon": "5.0E0"}}, Impl: impl,
+	g.out.Emit(Case{Op: "xsd.hash", In: J{"h": "poseidon", "dt": xsdNS + "dateTime", "val": f64J(5.0)}, Impl: impl,
 		Prop: judge(impl, "err"), Tags: []string{"time", "go-typed", "malformed"}, NT: true})
 }
 
@@ -445,7 +460,7 @@ func (g *c04gen) doublesAndStrings(tier string, n int) {
 			c := ld.GetCanonicalDouble(f)
 			want, _ := hs.H.HashBytes([]byte(c))
 			impl := implHash(hs.H, full, f)
-			g.out.Emit(Case{Op: "xsd.hash", In: J{"h": hs.JSON, "dt": full, "val": J{"k": "f64", "canon": c}, "canon": canonTable(c)}, Impl: impl,
+			g.out.Emit(Case{Op: "xsd.hash", In: J{"h": hs.JSON, "dt": full, "val": f64J(f), "canon": canonTable(c)}, Impl: impl,
 				Prop: judge(impl, want), Tags: []string{"dt:double", "h:" + hs.Name, "go:float64"}, NT: true})
 		}
 		// integers given for xsd:double: exact or error
